@@ -660,6 +660,73 @@ var r13Sentinels = map[string]int64{
 	"byteRange.lo": -1, // parsed from a token split on '-': it cannot carry a sign; -1 = "no explicit offset"
 }
 
+// dashFreeToken: the string cannot contain a '-' — an element of strings.Split(_, "-"), the part
+// before the separator of strings.Cut(_, "-"), or the corresponding result of an in-package
+// helper built on them (`cutExactlyOnce(s, "-")`), with the helper's separator parameter bound to
+// the constant the caller passes.
+func dashFreeToken(v ssa.Value, pkg string, bind map[*ssa.Parameter]ssa.Value, depth int) bool {
+	if depth > 4 {
+		return false
+	}
+	isDash := func(sep ssa.Value) bool {
+		sep = core.Resolve(sep)
+		if p, ok := sep.(*ssa.Parameter); ok && bind[p] != nil {
+			sep = core.Resolve(bind[p])
+		}
+		s, ok := core.ConstString(sep)
+		return ok && s == "-"
+	}
+	v = core.Resolve(v)
+	if s, ok := core.ConstString(v); ok {
+		return !strings.Contains(s, "-")
+	}
+	switch x := v.(type) {
+	case *ssa.UnOp:
+		if ia, ok := x.X.(*ssa.IndexAddr); ok {
+			if sp, ok := core.Resolve(ia.X).(*ssa.Call); ok && core.Call(sp).IsFunc("strings", "Split") {
+				return isDash(sp.Call.Args[1])
+			}
+		}
+	case *ssa.Phi:
+		for _, e := range x.Edges {
+			if !dashFreeToken(e, pkg, bind, depth+1) {
+				return false
+			}
+		}
+		return len(x.Edges) > 0
+	case *ssa.Extract:
+		call, ok := x.Tuple.(*ssa.Call)
+		if !ok {
+			return false
+		}
+		if core.Call(call).IsFunc("strings", "Cut") {
+			return x.Index == 0 && isDash(call.Call.Args[1])
+		}
+		g := call.Call.StaticCallee()
+		if g == nil || g.Blocks == nil || core.PkgPathOf(g) != pkg {
+			return false
+		}
+		nb := map[*ssa.Parameter]ssa.Value{}
+		for i, a := range call.Call.Args {
+			if i < len(g.Params) {
+				nb[g.Params[i]] = a
+				if p, isP := core.Resolve(a).(*ssa.Parameter); isP && bind[p] != nil {
+					nb[g.Params[i]] = bind[p]
+				}
+			}
+		}
+		n := 0
+		for _, r := range returnsIn(g) {
+			if x.Index >= len(r.Results) || !dashFreeToken(r.Results[x.Index], pkg, nb, depth+1) {
+				return false
+			}
+			n++
+		}
+		return n > 0
+	}
+	return false
+}
+
 // sentinelBelief: every value stored into the field in the package is — followed through
 // φs, local variables and the results of in-package helpers — the sentinel, a non-negative
 // constant, or the result of strconv.ParseInt applied to an element of strings.Split(_, "-").
@@ -710,20 +777,7 @@ func sentinelBelief(p *core.Program, pkg, name string, k int64) bool {
 				return false
 			}
 			if core.Call(call).IsFunc("strconv", "ParseInt") && x.Index == 0 {
-				ld, isLd := core.Resolve(call.Call.Args[0]).(*ssa.UnOp)
-				if !isLd {
-					return false
-				}
-				ia, isIA := ld.X.(*ssa.IndexAddr)
-				if !isIA {
-					return false
-				}
-				sp, isSp := core.Resolve(ia.X).(*ssa.Call)
-				if !isSp || !core.Call(sp).IsFunc("strings", "Split") {
-					return false
-				}
-				sep, isS := core.ConstString(sp.Call.Args[1])
-				return isS && sep == "-"
+				return dashFreeToken(call.Call.Args[0], pkg, nil, 0)
 			}
 			g := call.Call.StaticCallee()
 			if g == nil || g.Blocks == nil || core.PkgPathOf(g) != pkg {
